@@ -61,7 +61,24 @@ def run(ctx):
     rep.rule("C19.R1", "stage 1 and stage 2 momentum balances are adjoint: same force families, same dt-weights relative to the mass term, mirrored evaluation points, mid-step velocity", 5)
     rep.rule("C19.R2", "symmetric kinematic equation (both end points weighted equally, evaluated with the mid-step velocity)", 4)
     rep.rule("C19.R3", "cached operators of stage 1 are re-evaluated at the end point with the System method stage 2 uses", 6)
+    rep.rule("C19.R4", "the step size is fixed for the whole run: self.dt is written in the constructor only (a composition of symmetric steps is reversible only if the backward run uses the same steps in reverse order)", 1)
     cls = ctx.repo.get(RT, "Rattle")
+    wr = []
+    for m_ in cls.body:
+        if isinstance(m_, ast.FunctionDef) and m_.name != "__init__":
+            for w_ in ast.walk(m_):
+                tg_ = w_.targets if isinstance(w_, ast.Assign) else ([w_.target] if isinstance(w_, ast.AugAssign) else [])
+                for t_ in tg_:
+                    for tt_ in (t_.elts if isinstance(t_, ast.Tuple) else [t_]):
+                        if dotted(tt_) == "self.dt":
+                            wr.append((m_, w_))
+    if wr:
+        m_, w_ = wr[0]
+        rep.bad("C19.R4", f"{RT}:Rattle.{m_.name}", w_, f"`{norm_src(w_)[:70]}` changes the step size during the run: with a shortened last step the N steps forward are (dt, ..., dt, dt') and the "
+                "N steps after reversing the velocities are again (dt, ..., dt, dt'), not the reversed sequence - the there-and-back run does not return to the initial state whenever "
+                "(t1 - t0) / dt is not an integer (each single step is still symmetric)", f"{RT}:{w_.lineno}")
+    else:
+        rep.ok("C19.R4", f"{RT}:Rattle", "self.dt is assigned in __init__ only")
     r1 = ctx.repo.get(RT, "Rattle.R_x1")
     solve = ctx.repo.get(RT, "Rattle.solve")
     init = ctx.repo.get(RT, "Rattle.__init__")
@@ -311,6 +328,10 @@ MUTANTS = [
          old="            self.W_gn = self.system.W_g(tn1, qn1, format=\"csr\")\n", new="            self.W_gn = self.system.W_g(self.tn, self.qn, format=\"csr\")\n", expect="C19.R3"),
     dict(id="c19-m8", what="kinematic equation evaluates the end-point velocity with un", file=RT,
          old="            * (self.Bn @ un12 + self.betan + self.system.q_dot(tn1, qn1, un12))\n", new="            * (self.Bn @ un12 + self.betan + self.system.q_dot(tn1, qn1, un))\n", expect="C19.R2"),
+]
+MUTANTS += [
+    dict(id="c19-r4-seed", canary=True, what="[seeded by sub-agent] Rattle shortens its last step so that the run ends exactly at t1", file=RT,
+         old="            tn1 = self.tn + self.dt\n\n            #########\n            # Stage 1\n", new="            self.dt = min(self.dt, self.t1 - self.tn)\n            tn1 = self.tn + self.dt\n\n            #########\n            # Stage 1\n", expect="C19.R4"),
 ]
 NEUTRAL = [
     dict(id="c19-n1", canary=True, what="kinematic row written with two explicit q_dot calls (the commented-out variant)", file=RT,
